@@ -136,6 +136,124 @@ theorem updates_can_finish (n : Nat) (s : S) (hr : Reachable n s) :
     exact ⟨tr0 ++ tr, by rw [run_append tr0 tr _ s h0]; exact hrun⟩
   exact ⟨tr, s', hrun, hdone, rmw_serialisable n s' hr' hdone⟩
 
+/-! ### Termination of *every* execution
+
+The model has no idle transition (waiting for the lock is not a step): each transition moves one updater one phase on.
+So not only can the updaters finish — every execution is at most `6 · n` transitions long, and an execution that cannot
+be extended has finished. -/
+
+/-- every transition decreases the remaining work -/
+theorem step_decreases (s s' : S) (l : L) (h : step s l = some s') : work s' < work s := by
+  cases l with
+  | lock i =>
+    simp only [step] at h
+    split at h
+    · rename_i hg
+      obtain ⟨hi, hu, _⟩ := hg
+      simp only [Option.some.injEq] at h; subst h
+      exact work_lt s _ i .locked hi rfl rfl (by rw [hu]; simp [urank])
+    · cases h
+  | readBegin i =>
+    simp only [step] at h
+    split at h
+    · rename_i hg
+      obtain ⟨hi, hu⟩ := hg
+      simp only [Option.some.injEq] at h; subst h
+      exact work_lt s _ i .reading hi rfl rfl (by rw [hu]; simp [urank])
+    · cases h
+  | readEnd i =>
+    simp only [step] at h
+    split at h
+    · rename_i hg
+      obtain ⟨hi, hu⟩ := hg
+      split at h
+      · simp only [Option.some.injEq] at h; subst h
+        exact work_lt s _ i (.read _) hi rfl rfl (by rw [hu]; simp [urank])
+      · simp only [Option.some.injEq] at h; subst h
+        exact work_lt s _ i (.read []) hi rfl rfl (by rw [hu]; simp [urank])
+    · cases h
+  | writeBegin i =>
+    simp only [step] at h
+    split at h
+    · rename_i hi
+      split at h
+      · rename_i v hu
+        simp only [Option.some.injEq] at h; subst h
+        exact work_lt s _ i (.writing (v ++ [i])) hi rfl rfl (by rw [hu]; simp [urank])
+      · cases h
+    · cases h
+  | writeEnd i =>
+    simp only [step] at h
+    split at h
+    · rename_i hi
+      split at h
+      · rename_i v hu
+        simp only [Option.some.injEq] at h; subst h
+        exact work_lt s _ i .written hi rfl rfl (by rw [hu]; simp [urank])
+      · cases h
+    · cases h
+  | unlock i =>
+    simp only [step] at h
+    split at h
+    · rename_i hg
+      obtain ⟨hi, hu, _⟩ := hg
+      simp only [Option.some.injEq] at h; subst h
+      exact work_lt s _ i .done hi rfl rfl (by rw [hu]; simp [urank])
+    · cases h
+
+/-- an execution of `k` transitions uses up at least `k` units of work -/
+theorem run_bound : ∀ (tr : List L) (s s' : S), run s tr = some s' → tr.length + work s' ≤ work s := by
+  intro tr
+  induction tr with
+  | nil => intro s s' h; simp only [run, Option.some.injEq] at h; subst h; simp
+  | cons l ls ih =>
+    intro s s' h
+    simp only [run] at h
+    cases hst : step s l with
+    | none => rw [hst] at h; cases h
+    | some z =>
+      rw [hst] at h
+      have h1 := ih z s' h
+      have h2 := step_decreases s z l hst
+      simp only [List.length_cons]; omega
+
+theorem work_init (n : Nat) : work (init n) = 6 * n := by
+  unfold work init
+  simp only [urank]
+  induction n with
+  | zero => rfl
+  | succ n ih =>
+    rw [List.range_succ, List.map_append, List.sum_append, ih]
+    simp; omega
+
+/-- **every_execution_is_short**: whatever the interleaving, `n` updaters of one tile make at most `6 · n` transitions. -/
+theorem every_execution_is_short (n : Nat) (tr : List L) (s : S) (h : run (init n) tr = some s) : tr.length ≤ 6 * n := by
+  have := run_bound tr (init n) s h
+  rw [work_init] at this; omega
+
+/-- a state without an enabled transition is one in which every updater is done -/
+theorem stuck_is_done (s : S) (h : Inv s) (hst : ∀ l, step s l = none) : ∀ i, i < s.n → s.us i = .done := by
+  intro i hi
+  by_cases e : s.us i = .done
+  · exact e
+  · obtain ⟨l, s', hs, _⟩ := progress s h ⟨i, hi, e⟩
+    rw [hst l] at hs; cases hs
+
+/-- **every_execution_terminates**: an execution that cannot be extended — and every execution reaches such a point
+within `6 · n` transitions — ends with all updaters done, the tile stable and holding every contribution exactly once,
+in lock-acquisition order.  No fairness assumption is involved: the protocol has no transition that does not advance
+an updater. -/
+theorem every_execution_terminates (n : Nat) (tr : List L) (s : S) (h : run (init n) tr = some s) (hmax : ∀ l, step s l = none) :
+    tr.length ≤ 6 * n ∧ (∀ i, i < s.n → s.us i = .done) ∧
+      s.file = .stable s.log ∧ s.log.Nodup ∧ ∀ i, i ∈ s.log ↔ i < s.n := by
+  have hr : Reachable n s := ⟨tr, h⟩
+  have hd := stuck_is_done s (inv_reachable n s hr) hmax
+  exact ⟨every_execution_is_short n tr s h, hd, rmw_serialisable n s hr hd⟩
+
+/-- non-vacuity: the complete execution of two updaters one after the other is maximal -/
+example : ∃ s, run (init 2) [.lock 1, .readBegin 1, .readEnd 1, .writeBegin 1, .writeEnd 1, .unlock 1,
+    .lock 0, .readBegin 0, .readEnd 0, .writeBegin 0, .writeEnd 0, .unlock 0] = some s ∧ s.file = .stable [1, 0] := ⟨_, rfl, rfl⟩
+
 /-- non-vacuity: three updaters, one of them in the middle of its write -/
 example : ∃ tr s', run (init 3) ([.lock 1, .readBegin 1, .readEnd 1, .writeBegin 1] ++ tr) = some s' ∧ ∀ i, i < s'.n → s'.us i = .done := by
   obtain ⟨b, h0⟩ : ∃ b, run (init 3) [.lock 1, .readBegin 1, .readEnd 1, .writeBegin 1] = some b := ⟨_, rfl⟩
